@@ -21,6 +21,7 @@ import (
 const modulePath = "github.com/nyaruka/goflow"
 
 type Verifier struct {
+	immutables []ImmutableDef
 	prog      *ssa.Program
 	pkgs      []*packages.Package
 	allPkgs   map[string]*packages.Package
@@ -139,6 +140,7 @@ func Load(repoDir string, patterns []string, overlay map[string][]byte, extSpecD
 		for _, g := range sf.Ghosts {
 			v.ghosts[g.Name] = g
 		}
+		v.immutables = append(v.immutables, sf.Immutables...)
 		for _, l := range sf.Lemmas {
 			v.lemmas[l.Pkg+"::"+l.Name] = l
 		}
